@@ -135,6 +135,18 @@ def replay_pairs(recs):
             wa = wpv / np.linalg.norm(wpv)
             if not maxdiff(a, wa) <= 1e-14:
                 t.fail("C09|mul|%s|versor-product" % order, {"p": p, "v": v, "got": a, "want": wa})
+            # a versor object built from data whose norm has drifted by a few parts per million (logged with few decimals): it is a
+            # unit quaternion, and its inverse is two-sided to round-off
+            t.calls += 2
+            for drift in (1.0 + 4e-6, 1.0 - 3e-6):
+                hq = core.g_unit(p) * drift
+                Pn = Quaternion(np.roll(hq, -1), order="S") if order == "S" else Quaternion(hq)
+                pn = as_H(np.asarray(Pn, dtype=float), order)
+                invn = as_H(Pn.inverse, order)
+                e1 = np.asarray(Quaternion(pn, versor=False).product(invn), dtype=float)
+                e2 = np.asarray(Quaternion(invn, versor=False).product(pn), dtype=float)
+                if not (abs(np.linalg.norm(pn) - 1.0) <= 1e-15 * 4 and max(maxdiff(e1, one), maxdiff(e2, one)) <= 1e-14):
+                    t.fail("C09|Quaternion.inverse|versor-from-near-unit-data|q*inv!=1", {"p": p, "order": order, "norm": np.linalg.norm(pn), "q*inv": e1, "inv*q": e2})
             # rotation matrix is independent of the storage order
             Pv = Quaternion(np.roll(core.g_unit(p), -1), order="S") if order == "S" else Quaternion(core.g_unit(p))
             Rm = np.asarray(Pv.to_DCM(), dtype=float)
